@@ -499,7 +499,7 @@ class TextXVisitor(RRELVisitor):
             if rule.rule_name and cls.__name__ != rule.rule_name:
                 # Special case. Body of the rule is a single rule reference and
                 # the referenced rule is not match rule.
-                target_cls = metamodel[rule.rule_name]
+                target_cls = rule._tx_class
                 _determine_rule_type(target_cls)
                 abstract = target_cls._tx_type != RULE_MATCH
             else:
